@@ -252,6 +252,44 @@ def same(v, node):
     return f'{a} vs {b}'
 
 
+def aliases(root):
+    """MiniPy has value semantics: two attribute paths that hold the SAME mutable container (list, set, dict, numpy array,
+    mutable instance) would be one object in Python and two values in the translated program.  Returns the first such pair
+    of paths in the object graph under `root` (None if every mutable object is reachable along exactly one path)."""
+    np = _numpy()
+    seen = {}
+    stack = [(root, 'self')]
+    while stack:
+        v, path = stack.pop()
+        if v is None or isinstance(v, (str, int, float, bool, enum.Enum, type, np.generic)):
+            continue
+        if isinstance(v, tuple):
+            for i, x in enumerate(v):
+                stack.append((x, f'{path}[{i}]'))
+            continue
+        frozen = dataclasses.is_dataclass(v) and getattr(type(v), '__dataclass_params__', None) is not None \
+            and type(v).__dataclass_params__.frozen
+        if not frozen:
+            if id(v) in seen:
+                return seen[id(v)], path
+            seen[id(v)] = path
+        if isinstance(v, dict):
+            for k, x in v.items():
+                stack.append((x, f'{path}[{k!s}]'))
+        elif isinstance(v, (list, set, frozenset)):
+            for i, x in enumerate(v):
+                stack.append((x, f'{path}[{i}]' if isinstance(v, list) else f'{path}{{…}}'))
+        elif isinstance(v, np.ndarray):
+            continue
+        elif dataclasses.is_dataclass(v):
+            for f in dataclasses.fields(v):
+                stack.append((getattr(v, f.name), f'{path}.{f.name}'))
+        elif hasattr(v, '__dict__'):
+            for k, x in vars(v).items():
+                stack.append((x, f'{path}.{demangle(k)}'))
+    return None
+
+
 def outcome(fn):
     try:
         return ('ok', fn())
